@@ -76,3 +76,7 @@ package utils
 //@   ensures result[4] == (value / 16777216) % 256 && result[5] == (value / 65536) % 256 && result[6] == (value / 256) % 256 && result[7] == value % 256
 //@   assigns nothing
 //@   safety all
+
+//@ func BytesToHex
+//@   trusted
+//@   pure
